@@ -1,7 +1,7 @@
 (* C07 -- H-Revolve family schedules achieve their cost optimum for any cost vector
    Property theorems only: each proof is one application of a lemma proved in Proofs/, followed by Print Assumptions. *)
 From Coq Require Import ZArith List Bool.
-From CS Require RevCost RevConv RevBridge4 RevolveRun Opt0Table DiskCost DiskCount.
+From CS Require RevCost RevConv RevBridge4 RevolveRun Opt0Table DiskCost DiskCount HRevTable HRevCost HRevCount.
 From CS Require Import Actions NAdvance Multistage Exec Sched RunFacts Projections BasicInv MultistageRun AllocTotal TLBridge MixBridge.
 Import ListNotations.
 Open Scope Z_scope.
@@ -239,28 +239,174 @@ Proof. exact (@DiskCost.DBlk_cost_lb). Qed.
 Print Assumptions C07_dblk_cost_lower_bound.
 End M_C07_dblk_cost_lower_bound.
 
-(* PARTIAL: for HRevolve (get_hopt_table) the cost theorem and monotonicity in the number of disk units are not proved: correspondence + clean-DP oracle only; the orderings between the classes (disk_le_revolve, periodic_ge_disk) are stated on the operation lists, whose counts the stream realises (C07_disk_stream_counts); (this lemma is the structural work formula the Revolve theorem rests on) *)
-Module M_C07_hrevolve_partial.
-Import RevCost.
-Theorem C07_hrevolve_partial :
-  forall uf ub : Z,
+(* HREVOLVE, THE STREAM (1 <= ram, 0 <= disk, 0 < uf, 0 <= wd, rd; ub unconstrained): once the schedule is exhausted, uf * (forward steps executed) + ub * N + wd * (checkpoints written to DISK) + rd * (checkpoints loaded from DISK), read off the reference executor, equals C(disk, N-1) + N uf, C the H-Revolve recurrence (HRevTable.Cm / Bv), and no operation list of the grammar HBd with that disk budget costs less *)
+Module M_C07_hrevolve_stream_cost.
+Import HRevCount.
+Theorem C07_hrevolve_stream_cost :
+  forall (N ram disk uf ub wd rd : Z) (k : nat),
+         1 <= N ->
+         1 <= ram ->
+         0 <= disk ->
          0 < uf ->
-         forall (opt0 : list (list Z)) (M L : Z) (P : Z -> Z -> Z),
-         (forall m l : Z,
-          0 <= m <= M ->
-          0 <= l <= L -> 1 <= m \/ l = 0 -> RevGen.tget opt0 m l = RevGen.GOk ((l + 1) * ub + uf * P m l)) ->
-         (forall m : Z, P m 0 = 0) ->
-         (forall m : Z, 1 <= m -> P m 1 = 1) ->
-         (forall l : Z, 0 <= l -> 2 * P 1 l = l * (l + 1)) ->
-         (forall m l j : Z, 2 <= m -> 2 <= l -> 1 <= j <= l - 1 -> P m l <= j + P (m - 1) (l - j) + P m (j - 1)) ->
-         (forall m l : Z,
-          2 <= m -> 2 <= l -> exists j : Z, 1 <= j <= l - 1 /\ P m l = j + P (m - 1) (l - j) + P m (j - 1)) ->
-         forall (fuel : nat) (l cm : Z) (ops : list RevBlk.op),
-         RevGen.revolve fuel opt0 uf l cm = RevGen.GOk ops ->
-         0 <= l <= L -> 0 <= cm <= M -> (1 <= l -> 1 <= cm) -> work ops = l + 1 + P cm l.
-Proof. exact (@RevCost.revolve_work). Qed.
-Print Assumptions C07_hrevolve_partial.
-End M_C07_hrevolve_partial.
+         0 <= wd ->
+         0 <= rd ->
+         exists L0 : list RevBlk.op,
+           RevConv.sequence RevConv.KHRevolve N ram disk uf ub wd rd = Actions.Ok (map HRevBridge1.injH L0) /\
+           (let
+            '(s', m, _) :=
+             Sched.run_ops (DiskRun.disk_xparams N ram)
+               {|
+                 Sched.ob :=
+                   Sched.ORevF RevConv.KHRevolve N ram disk (RevConv.init_r (map HRevBridge1.injH L0));
+                 Sched.started := false
+               |} Sched.mon0 (repeat Sched.Next k) in
+             Sched.is_exhausted s' = true ->
+             let c :=
+               uf * Exec.fwd_total (Exec.cnt (Sched.mx m)) + ub * N +
+               wd * Exec.disk_writes (Exec.cnt (Sched.mx m)) + rd * Exec.disk_reads (Exec.cnt (Sched.mx m)) in
+             c = HRevTable.Cm uf ub wd rd ram (Z.to_nat disk) (N - 1) + N * uf /\
+             (forall s : list RevBlk.op,
+              HRevCost.HBd ram disk HRevBlk.MTop 0 (N - 1) s -> c <= DiskCost.cost uf ub wd rd s)).
+Proof. exact (@HRevCount.hrevolve_stream_cost). Qed.
+Print Assumptions C07_hrevolve_stream_cost.
+End M_C07_hrevolve_stream_cost.
+
+(* HREVOLVE, operation lists: the list the extracted hrevolve produces is in the grammar HRevCost.HBd (HRevBlk.HB, whose every list the executor accepts, indexed by the number of free disk slots; a disk write is always followed by the Forward that stores it), costs exactly C(disk, l) + (l+1) uf and no list of the grammar with that budget costs less.  PARTIAL with respect to the property text in one respect only: "the optimum of the hierarchical adjoint problem" is here the optimum over the grammar HBd (nested splits, the right part with one disk slot fewer, memory-only blocks at the leaves), not over every conceivable action stream *)
+Module M_C07_hrevolve_optimal_in_grammar.
+Import HRevCost.
+Theorem C07_hrevolve_optimal_in_grammar :
+  forall uf ub wd rd : Z,
+         0 < uf ->
+         0 <= wd ->
+         0 <= rd ->
+         forall (l ram disk : Z) (L : list Ops.op),
+         0 <= l ->
+         1 <= ram ->
+         0 <= disk ->
+         HRevSeq.hrevolve l ram disk wd rd uf ub = Actions.Ok L ->
+         exists L0 : list RevBlk.op,
+           L = map HRevBridge1.injH L0 /\
+           HBd ram disk HRevBlk.MTop 0 l L0 /\
+           DiskCost.cost uf ub wd rd L0 = HRevTable.Cm uf ub wd rd ram (Z.to_nat disk) l + (l + 1) * uf /\
+           (forall s : list RevBlk.op,
+            HBd ram disk HRevBlk.MTop 0 l s -> DiskCost.cost uf ub wd rd L0 <= DiskCost.cost uf ub wd rd s).
+Proof. exact (@HRevCost.hrevolve_optimal). Qed.
+Print Assumptions C07_hrevolve_optimal_in_grammar.
+End M_C07_hrevolve_optimal_in_grammar.
+
+(* ... because the tables get_hopt_table builds (two levels, w0 = r0 = 0 as HRevolve passes them) hold exactly these values: level 0 = the memory-only optimum val m l, optp[1][l][m] = B m l, opt[1][l][m] = C m l with B m l = min(val c0 l, min_j (j uf + C (m-1) (l-j) + rd + B m (j-1))), C m l = min(val c0 l, wd + B m l), C 0 = val c0 *)
+Module M_C07_hopt_table_values.
+Import HRevTable.
+Theorem C07_hopt_table_values :
+  forall lmax c0 c1 uf ub wd rd : Z,
+         0 <= lmax ->
+         1 <= c0 ->
+         0 <= c1 ->
+         0 <= uf ->
+         0 <= wd ->
+         forall T : HRevSeq.tabs,
+         HRevSeq.get_hopt_table lmax c0 c1 0 wd 0 rd ub uf = Actions.Ok T ->
+         HRevTotal.Inv lmax c0 c1 T /\
+         V0 lmax c0 uf ub (fun l m : Z => l = 0 \/ 1 <= m) T /\
+         V1 lmax c0 c1 uf ub wd rd (fun _ _ : Z => True) (fun l m : Z => l <= 1 \/ 1 <= m) T.
+Proof. exact (@HRevTable.hopt_values). Qed.
+Print Assumptions C07_hopt_table_values.
+End M_C07_hopt_table_values.
+
+(* cost(HRevolve with d' disk units) <= cost(HRevolve with d <= d' units), same l, ram and costs *)
+Module M_C07_hrevolve_more_disk.
+Import HRevCost.
+Theorem C07_hrevolve_more_disk :
+  forall uf ub wd rd : Z,
+         0 < uf ->
+         0 <= wd ->
+         0 <= rd ->
+         forall (l ram d d' : Z) (s s' : list RevBlk.op),
+         0 <= l ->
+         1 <= ram ->
+         0 <= d <= d' ->
+         HRevSeq.hrevolve l ram d wd rd uf ub = Actions.Ok (map HRevBridge1.injH s) ->
+         HRevSeq.hrevolve l ram d' wd rd uf ub = Actions.Ok (map HRevBridge1.injH s') ->
+         DiskCost.cost uf ub wd rd s' <= DiskCost.cost uf ub wd rd s.
+Proof. exact (@HRevCost.hrevolve_more_disk). Qed.
+Print Assumptions C07_hrevolve_more_disk.
+End M_C07_hrevolve_more_disk.
+
+(* cost(HRevolve) <= cost(Revolve), same l, ram and costs *)
+Module M_C07_hrevolve_le_revolve.
+Import HRevCost.
+Theorem C07_hrevolve_le_revolve :
+  forall uf ub wd rd : Z,
+         0 < uf ->
+         0 <= wd ->
+         0 <= rd ->
+         forall (l ram disk : Z) (sh sr : list RevBlk.op),
+         0 <= l ->
+         1 <= ram ->
+         0 <= disk ->
+         HRevSeq.hrevolve l ram disk wd rd uf ub = Actions.Ok (map HRevBridge1.injH sh) ->
+         RevSeq.revolve_top l ram uf ub = Actions.Ok (map RevBridge1.inj sr) ->
+         DiskCost.cost uf ub wd rd sh <= DiskCost.cost uf ub wd rd sr.
+Proof. exact (@HRevCost.hrevolve_le_revolve). Qed.
+Print Assumptions C07_hrevolve_le_revolve.
+End M_C07_hrevolve_le_revolve.
+
+(* cost(HRevolve with at least l disk units) <= cost(DiskRevolve): the Disk-Revolve grammar is the sub-grammar of HBd whose left parts are memory-only *)
+Module M_C07_hrevolve_le_disk_revolve.
+Import HRevCost.
+Theorem C07_hrevolve_le_disk_revolve :
+  forall uf ub wd rd : Z,
+         0 < uf ->
+         0 <= wd ->
+         0 <= rd ->
+         forall (l ram disk : Z) (sh sd : list RevBlk.op),
+         0 <= l ->
+         1 <= ram ->
+         l <= disk ->
+         HRevSeq.hrevolve l ram disk wd rd uf ub = Actions.Ok (map HRevBridge1.injH sh) ->
+         RevSeq.disk_revolve_top l ram rd wd uf ub = Actions.Ok (map RevBridge1.inj sd) ->
+         DiskCost.cost uf ub wd rd sh <= DiskCost.cost uf ub wd rd sd.
+Proof. exact (@HRevCost.hrevolve_le_disk_revolve). Qed.
+Print Assumptions C07_hrevolve_le_disk_revolve.
+End M_C07_hrevolve_le_disk_revolve.
+
+(* (the lower bound) every list of HBd with d free disk slots for l steps costs at least C(d, l) + (l+1) uf (B(d, l) + (l+1) uf when its checkpoint is on disk already) *)
+Module M_C07_hbd_cost_lower_bound.
+Import HRevCost.
+Theorem C07_hbd_cost_lower_bound :
+  forall c0 uf ub wd rd : Z,
+         0 < uf ->
+         0 <= wd ->
+         0 <= rd ->
+         forall (d : Z) (m : HRevBlk.mode) (o l : Z) (s : list RevBlk.op),
+         HBd c0 d m o l s ->
+         0 <= d -> 0 <= l -> DiskCost.cost uf ub wd rd s >= bound c0 uf ub wd rd m d l + (l + 1) * uf.
+Proof. exact (@HRevCost.HBd_cost_lb). Qed.
+Print Assumptions C07_hbd_cost_lower_bound.
+End M_C07_hbd_cost_lower_bound.
+
+(* the executor counters at exhaustion are the counts of the operation list, for every list of HBd *)
+Module M_C07_hrev_stream_counts.
+Import HRevCount.
+Theorem C07_hrev_stream_counts :
+  forall (N ram disk d : Z) (L0 : list RevBlk.op) (k : nat),
+         1 <= N ->
+         0 <= ram ->
+         HRevCost.HBd ram d HRevBlk.MTop 0 (N - 1) L0 ->
+         let
+         '(s', m, _) :=
+          Sched.run_ops (DiskRun.disk_xparams N ram)
+            {|
+              Sched.ob := Sched.ORevF RevConv.KHRevolve N ram disk (RevConv.init_r (map HRevBridge1.injH L0));
+              Sched.started := false
+            |} Sched.mon0 (repeat Sched.Next k) in
+          Sched.is_exhausted s' = true ->
+          Exec.fwd_total (Exec.cnt (Sched.mx m)) = RevCost.work L0 /\
+          Exec.disk_writes (Exec.cnt (Sched.mx m)) = DiskCost.nWD L0 /\
+          Exec.disk_reads (Exec.cnt (Sched.mx m)) = DiskCost.nRD L0.
+Proof. exact (@HRevCount.hrev_stream_counts). Qed.
+Print Assumptions C07_hrev_stream_counts.
+End M_C07_hrev_stream_counts.
 
 (* the split chosen is a minimiser *)
 Module M_C07_argmin_min.
